@@ -6,8 +6,8 @@ From Trzsz Require Import Base.Bytes Gen.Consts Model.Path Model.Fs Model.Names 
   Proofs.PathFs Proofs.Names Proofs.TransferFs.
 
 (* ---------- success of the file-system primitives ---------- *)
-Definition len_ok (n : name) : Prop := (name_max <? name_len n) = false.
-Definition comp_ok (n : name) : Prop := has_nul n = false /\ len_ok n.
+Notation len_ok := tr_len_ok.
+Notation comp_ok := tr_comp_ok.
 
 Lemma walk_through f : forall p pre rest,
   (forall a b, p = a ++ b -> get f (pre ++ a) = Some Dir) -> Forall len_ok p ->
@@ -15,7 +15,7 @@ Lemma walk_through f : forall p pre rest,
 Proof.
   induction p as [|c p IH]; intros pre rest Hc Hl; [rewrite app_nil_r; reflexivity|].
   cbn [app walk]. pose proof (Hc [] (c :: p) eq_refl) as H0. rewrite app_nil_r in H0. rewrite H0.
-  inversion Hl as [|? ? Hc1 Hl1]; subst. unfold len_ok in Hc1. rewrite Hc1.
+  inversion Hl as [|? ? Hc1 Hl1]; subst. unfold tr_len_ok in Hc1. rewrite Hc1.
   rewrite IH; [rewrite <- app_assoc; reflexivity | | exact Hl1].
   intros a b Hab. rewrite <- app_assoc. apply (Hc (c :: a) b). cbn. congruence.
 Qed.
@@ -41,7 +41,7 @@ Proof.
   intros Hc Hp Hn Hl. unfold stat.
   rewrite (bad_path_false (p ++ [n])) by (apply Forall_app; split; [exact Hp | constructor; [exact Hn | constructor]]).
   rewrite (walk_through f p [] [n] (fun a b Hab => Hc a b Hab) (comp_len p Hp)). cbn [app walk].
-  rewrite (Hc p [] (eq_sym (app_nil_r p))). destruct Hn as [_ Hn]. unfold len_ok in Hn. rewrite Hn.
+  rewrite (Hc p [] (eq_sym (app_nil_r p))). destruct Hn as [_ Hn]. unfold tr_len_ok in Hn. rewrite Hn.
   unfold get. destruct (p ++ [n]) eqn:E; [destruct p; discriminate|]. rewrite Hl. reflexivity.
 Qed.
 
@@ -55,7 +55,7 @@ Lemma open_create_ok f p n t pl : chain f p -> Forall comp_ok p -> comp_ok n ->
 Proof.
   intros Hc Hp [Hn1 Hn2] Hl. unfold open_create.
   destruct (p ++ [n]) as [|x0 p0] eqn:E; [destruct p; discriminate|]. rewrite <- E in *.
-  rewrite removelast_snoc, last_snoc, (stat_chain_dir f p Hc Hp), Hn1. unfold len_ok in Hn2. rewrite Hn2. cbn [orb].
+  rewrite removelast_snoc, last_snoc, (stat_chain_dir f p Hc Hp), Hn1. unfold tr_len_ok in Hn2. rewrite Hn2. cbn [orb].
   destruct (lookup f (p ++ [n])) as [[old|]|]; [eauto | congruence | eauto].
 Qed.
 
@@ -66,8 +66,8 @@ Lemma mk_down_new f : forall p pre n,
   exists f' es, mk_down f pre (p ++ [n]) = (true, f', es).
 Proof.
   induction p as [|c p IH]; intros pre n Hc Hp [Hn1 Hn2] Hl.
-  - cbn [app mk_down]. unfold len_ok in Hn2. rewrite Hn1, Hn2. cbn [orb]. cbn [app] in Hl. rewrite Hl. eauto.
-  - cbn [app mk_down]. inversion Hp as [|? ? [Hc1 Hc2] Hp1]; subst. unfold len_ok in Hc2. rewrite Hc1, Hc2. cbn [orb].
+  - cbn [app mk_down]. unfold tr_len_ok in Hn2. rewrite Hn1, Hn2. cbn [orb]. cbn [app] in Hl. rewrite Hl. eauto.
+  - cbn [app mk_down]. inversion Hp as [|? ? [Hc1 Hc2] Hp1]; subst. unfold tr_len_ok in Hc2. rewrite Hc1, Hc2. cbn [orb].
     pose proof (Hc [c] p eq_refl ltac:(discriminate)) as H0. rewrite H0.
     apply (IH (pre ++ [c]) n); [| exact Hp1 | split; assumption |].
     + intros a b Hab Ha. rewrite <- app_assoc. apply (Hc (c :: a) b); [cbn; congruence | discriminate].
@@ -146,14 +146,9 @@ Variable c : tr_cfg.
 Variable d : path.
 Hypothesis Hd_ok : Forall comp_ok d.
 
-Definition name_fine (n : name) : Prop := valid_name n = true /\ comp_ok n.
-
-(* the names of an entry are clean: not "", ".", "..", no '/', no NUL, at most 255 bytes *)
-Definition entry_clean (e : tr_entry) : Prop :=
-  Forall name_fine (tr_key c e :: tr_tail c e) /\ (tr_json c = true -> te_rel e <> []) /\
-  (te_isdir e = true -> tr_json c = true).
-
-Definition leaf_of (e : tr_entry) : path := d ++ tr_key c e :: tr_tail c e.
+Notation name_fine := tr_name_fine.
+Notation entry_clean := (tr_entry_clean c).
+Notation leaf_of := (tr_leaf_of c d).
 
 (* how the local name will be resolved to the name as sent *)
 Definition resolves (st : state) (e : tr_entry) : Prop :=
@@ -177,7 +172,7 @@ Proof. intro Hl. induction Hl as [|n l [Hn _] _ IH]; [reflexivity|]. cbn [forall
 
 Lemma get_new_name_self f nm : chain f d -> name_fine nm -> lookup f (d ++ [nm]) = None -> get_new_name f d nm = Some nm.
 Proof.
-  intros Hc [Hv [Hn1 Hn2]] Hl. unfold get_new_name. rewrite names_max_len_is_name_max. unfold len_ok in Hn2. rewrite Hn2.
+  intros Hc [Hv [Hn1 Hn2]] Hl. unfold get_new_name. rewrite names_max_len_is_name_max. unfold tr_len_ok in Hn2. rewrite Hn2.
   rewrite join_good by (constructor; [apply valid_name_good, Hv | constructor]).
   rewrite (stat_absent f d nm Hc Hd_ok (conj Hn1 Hn2) Hl). reflexivity.
 Qed.
@@ -191,7 +186,7 @@ Lemma create_ready e st x :
     (forall q, q <> [] -> q <> leaf_of e -> lookup (st_fs st') q = lookup (st_fs st) q) /\
     st_map st' = map_after st e.
 Proof.
-  intros Hc (Hfine & Hrel & Hdj) Hpar Hleaf Hres. unfold leaf_of, map_after, resolves in *.
+  intros Hc (Hfine & Hrel & Hdj) Hpar Hleaf Hres. unfold tr_leaf_of, map_after, resolves in *.
   unfold tr_create, tr_key, tr_tail, tr_payload in *. destruct (tr_json c) eqn:Ej.
   - (* JSON names *)
     cbn [tr_p_head tr_p_tail s_rel] in *. destruct (te_rel e) as [|r0 rest] eqn:Er; [exfalso; apply Hrel; reflexivity|].
@@ -260,6 +255,150 @@ Proof.
     destruct (do_create_file_new d (te_name e) true x st Hc Hd_ok (proj2 Hf0) Hleaf) as (st' & E & M & A & B).
     rewrite E. exists st'. split; [reflexivity|]. split; [exact A|]. split; [intros q _ H2; apply B; assumption|].
     rewrite M. destruct (tc_overwrite c); reflexivity.
+Qed.
+
+
+(* ---------- the whole list ---------- *)
+Variable f0 : fs.
+
+Notation tr_ready' := (tr_ready c d f0).
+
+Definition PInv (st : state) (done todo : list tr_entry) : Prop :=
+  chain (st_fs st) d /\
+  (forall e, In e done -> te_isdir e = true -> chain (st_fs st) (leaf_of e)) /\
+  (forall e, In e todo -> lookup (st_fs st) (leaf_of e) = None) /\
+  (tc_overwrite c = false -> tr_json c = true ->
+     (forall e, In e done -> map_get (st_map st) (te_id e) = Some (tr_key c e)) /\
+     (forall id v, map_get (st_map st) id = Some v -> exists e, In e done /\ te_id e = id)).
+
+Lemma leaf_not_nil e : leaf_of e <> [].
+Proof. unfold tr_leaf_of. destruct d; discriminate. Qed.
+
+Lemma chain_extend f p n : chain f p -> lookup f (p ++ [n]) = Some Dir -> chain f (p ++ [n]).
+Proof.
+  intros Hc Hl a b Hab. destruct (Nat.le_gt_cases (length a) (length p)) as [Hle|Hgt].
+  - destruct (app_eq_app_le a b p [n] (eq_sym Hab) Hle) as (x & Hx & _). apply (Hc a x Hx).
+  - assert (a = p ++ [n]).
+    { apply (f_equal (@length name)) in Hab as Hlen. rewrite !app_length in Hlen. cbn in Hlen.
+      assert (b = []) by (destruct b; [reflexivity | cbn in Hlen; lia]). subst b. rewrite app_nil_r in Hab. congruence. }
+    subst a. unfold get. destruct (p ++ [n]) eqn:E; [reflexivity | exact Hl].
+Qed.
+
+Lemma chain_frame_eq f f' p : chain f p -> (forall a b, p = a ++ b -> a <> [] -> lookup f' a = lookup f a) -> chain f' p.
+Proof.
+  intros Hc Hf a b Hab. specialize (Hc a b Hab). unfold get in *. destruct a as [|x a]; [reflexivity|].
+  rewrite (Hf (x :: a) b Hab) by discriminate. exact Hc.
+Qed.
+
+Lemma progress_step es st done e todo : tr_ready' es -> es = done ++ e :: todo -> PInv st done (e :: todo) ->
+  exists st', tr_spec_entry c d e st = Some (tr_key c e, st') /\ PInv st' (done ++ [e]) todo.
+Proof.
+  intros (Hclean & Hdist & Hpar & Hids & _) Hes (Hc & Hdirs & Habs & Hmap).
+  assert (Hin : In e es) by (rewrite Hes; apply in_or_app; right; left; reflexivity).
+  assert (Hce : entry_clean e) by (rewrite Forall_forall in Hclean; apply Hclean, Hin).
+  pose proof Hce as (Hfine & Hrel & Hdj).
+  (* the parent directory is there *)
+  assert (Hparent : chain (st_fs st) (d ++ removelast (tr_key c e :: tr_tail c e))).
+  { destruct (tr_tail c e) as [|t0 tl0] eqn:Et; [cbn [removelast]; rewrite app_nil_r; exact Hc|].
+    destruct (Hpar done e todo Hes) as (e' & Hin' & Hd' & _ & Hk'); [rewrite Et; discriminate|].
+    rewrite Et in Hk'. rewrite <- Hk'. apply (Hdirs e' Hin' Hd'). }
+  assert (Hleaf : lookup (st_fs st) (leaf_of e) = None) by (apply Habs; left; reflexivity).
+  assert (Hres : resolves st e).
+  { intros Eo Ej. destruct (Hmap Eo Ej) as (Hm1 & Hm2). destruct (map_get (st_map st) (te_id e)) as [v|] eqn:Em.
+    - destruct (Hm2 _ _ Em) as (e' & Hin' & Hid'). rewrite <- Hid', (Hm1 e' Hin') in Em. inversion Em as [Hv]. clear Em.
+      apply Hids; [rewrite Hes; apply in_or_app; left; exact Hin' | exact Hin | exact Hid'].
+    - destruct (tr_tail c e) eqn:Et; [reflexivity|]. exfalso.
+      destruct (Hpar done e todo Hes) as (e' & Hin' & _ & Hid' & _); [rewrite Et; discriminate|].
+      rewrite <- Hid', (Hm1 e' Hin') in Em. discriminate. }
+  set (x := if te_isdir e then [] else te_data e).
+  destruct (create_ready e st x Hc Hce Hparent Hleaf Hres) as (st' & Ecr & Hl' & Hfr & Hmp).
+  exists st'. split.
+  - (* the specification accepts the entry *)
+    unfold tr_spec_entry.
+    assert (E0 : te_isdir e && negb (tr_json c) = false).
+    { destruct (te_isdir e); [rewrite (Hdj eq_refl); reflexivity | reflexivity]. }
+    rewrite E0. subst x. clear Hdj. destruct (te_isdir e) eqn:Hd; [rewrite Ecr; reflexivity|].
+    destruct (create_ready e st [] Hc Hce Hparent Hleaf Hres) as (st1 & E1 & Hl1 & _).
+    rewrite E1. rewrite Hd in Hl1.
+    assert (Hts : tr_target_size d (tr_key c e) (tr_payload c e) st1 = 0).
+    { unfold tr_target_size, tr_leaf. fold (tr_tail c e). rewrite join_good by (apply fine_goods, Hfine).
+      fold (tr_leaf_of c d e). rewrite Hl1. reflexivity. }
+    rewrite Hts, N.ltb_irrefl, andb_false_r, Ecr. reflexivity.
+  - (* the invariant *)
+    assert (Hother : forall e', In e' done \/ In e' todo -> leaf_of e' <> leaf_of e).
+    { intros e' Hin' Heq. unfold tr_leaf_of in Heq. apply app_inv_head in Heq.
+      rewrite Hes, map_app in Hdist. cbn [map] in Hdist. apply NoDup_remove_2 in Hdist. apply Hdist.
+      rewrite <- Heq. apply in_or_app. destruct Hin' as [Hi|Hi]; [left | right]; apply in_map_iff; exists e'; auto. }
+    unfold PInv. split; [|split; [|split]].
+    + apply (chain_frame_eq _ _ _ Hc). intros a b Hab Ha. apply Hfr; [exact Ha|].
+      intro Heq. apply (f_equal (@length name)) in Heq. unfold tr_leaf_of in Heq. rewrite Hab, !app_length in Heq. cbn in Heq. lia.
+    + intros e' Hin' Hd'. apply in_app_or in Hin' as [Hin'|[<-|[]]].
+      * apply (chain_frame_eq _ _ _ (Hdirs e' Hin' Hd')). intros a b Hab Ha. apply Hfr; [exact Ha|].
+        intro Heq. subst a. pose proof (Hdirs e' Hin' Hd' (leaf_of e) b Hab) as Hg. unfold get in Hg.
+        destruct (leaf_of e) eqn:El; [exact (leaf_not_nil e El) | congruence].
+      * (* the new directory: its parent chain plus itself *)
+        rewrite Hd' in Hl'.
+        assert (Hsp : leaf_of e = (d ++ removelast (tr_key c e :: tr_tail c e)) ++ [last (tr_key c e :: tr_tail c e) []]).
+        { unfold tr_leaf_of. rewrite <- app_assoc. f_equal. apply app_removelast_last. discriminate. }
+        rewrite Hsp in Hl' |- *. apply chain_extend; [|exact Hl'].
+        apply (chain_frame_eq _ _ _ Hparent). intros a b Hab Ha. apply Hfr; [exact Ha|].
+        intro Heq. rewrite Hsp in Heq. subst a. apply (f_equal (@length name)) in Hab. rewrite !app_length in Hab. cbn in Hab. lia.
+    + intros e' Hin'. rewrite Hfr; [apply Habs; right; exact Hin' | apply leaf_not_nil | apply Hother; right; exact Hin'].
+    + intros Eo Ej. destruct (Hmap Eo Ej) as (Hm1 & Hm2). rewrite Hmp. unfold map_after. rewrite Eo, Ej.
+      specialize (Hres Eo Ej). destruct (map_get (st_map st) (te_id e)) as [v|] eqn:Em.
+      * subst v. split.
+        -- intros e' Hin'. apply in_app_or in Hin' as [Hin'|[<-|[]]]; [apply Hm1, Hin' | exact Em].
+        -- intros id v Hv. destruct (Hm2 _ _ Hv) as (e' & Hi & He). exists e'. split; [apply in_or_app; left; exact Hi | exact He].
+      * split.
+        -- intros e' Hin'. cbn [map_get]. apply in_app_or in Hin' as [Hin'|[<-|[]]].
+           ++ destruct (Z.eqb (te_id e) (te_id e')) eqn:Ez; [|apply Hm1, Hin'].
+              apply Z.eqb_eq in Ez. rewrite Ez, (Hm1 e' Hin') in Em. discriminate.
+           ++ rewrite Z.eqb_refl. reflexivity.
+        -- intros id v. cbn [map_get]. destruct (Z.eqb (te_id e) id) eqn:Ez.
+           ++ intros _. apply Z.eqb_eq in Ez. exists e. split; [apply in_or_app; right; left; reflexivity | exact Ez].
+           ++ intro Hv. destruct (Hm2 _ _ Hv) as (e' & Hi & He). exists e'. split; [apply in_or_app; left; exact Hi | exact He].
+Qed.
+
+Lemma progress_all es : tr_ready' es -> forall todo done st names, es = done ++ todo -> PInv st done todo ->
+  exists all stf, tr_spec c d todo st names = Some (map (tr_key c) todo, all, stf).
+Proof.
+  intro Hr. induction todo as [|e todo IH]; intros done st names Hes HI.
+  - cbn. eauto.
+  - destruct (progress_step es st done e todo Hr Hes HI) as (st' & Es & HI').
+    cbn [tr_spec map]. rewrite Es.
+    destruct (IH (done ++ [e]) st' (tr_add_name names (tr_key c e))) as (all & stf & E); [rewrite <- app_assoc; exact Hes | exact HI'|].
+    rewrite E. eauto.
+Qed.
+
+Theorem ready_accepts es : stat f0 d = SFound Dir -> tr_ready' es ->
+  exists all stf, tr_spec c d es (init_state f0) [] = Some (map (tr_key c) es, all, stf).
+Proof.
+  intros Hd Hr. apply (progress_all es Hr es [] (init_state f0) [] eq_refl).
+  destruct Hr as (_ & _ & _ & _ & Habs). unfold PInv. cbn [init_state st_fs st_map].
+  split; [apply stat_dir_chain, Hd|]. split; [intros e Hf; destruct Hf|]. split; [exact Habs|].
+  intros _ _. split; [intros e Hf; destruct Hf | intros id v Hv; discriminate Hv].
+Qed.
+
+Lemma nodup_map_coarser {A B C} (f : A -> B) (g : A -> C) (l : list A) :
+  (forall x y, In x l -> In y l -> g x = g y -> f x = f y) -> NoDup (map f l) -> NoDup (map g l).
+Proof.
+  intros Hfg. induction l as [|x l IH]; intro Hn; [constructor|]. cbn [map] in *. inversion Hn as [|? ? Hx Hn']; subst.
+  constructor.
+  - intro Hin. apply in_map_iff in Hin as (y & Hy & Hiy). apply Hx. apply in_map_iff. exists y. split; [|exact Hiy].
+    apply Hfg; [right; exact Hiy | left; reflexivity | exact Hy].
+  - apply IH; [|exact Hn']. intros a b Ha Hb. apply Hfg; right; assumption.
+Qed.
+
+Theorem ready_wf es : tr_ready' es -> tr_wf c es.
+Proof.
+  intros (Hclean & Hdist & Hpar & Hids & _). unfold tr_wf. split.
+  - intros Eo Ej. split.
+    + apply (nodup_map_coarser (fun e => tr_key c e :: tr_tail c e) _ es); [|exact Hdist].
+      intros x y Hx Hy Heq. inversion Heq as [[Hid Ht]]. f_equal; [apply Hids; assumption|].
+      unfold tr_tail, tr_payload. rewrite Ej. cbn [tr_p_tail s_rel]. exact Ht.
+    + intros pre e post Hes Ht. destruct (Hpar pre e post Hes) as (e' & Hi & _ & Hid & _); [|eauto].
+      unfold tr_tail, tr_payload. rewrite Ej. exact Ht.
+  - intros _. exact Hdist.
 Qed.
 
 End Progress.
